@@ -37,6 +37,16 @@ CLAIMED = {
         text="TLC explores every interleaving of target, 2 workers, wakers (incl. a duplicate waker per round) and helper tasks on the state-word protocol and proves no-lost-wake-up, single-runner and termination, and shows that the two ways of breaking the helper's abort rule lose a wake-up; the real runtime is then driven through the same hand-off (bare suspend/resume, condition variables, semaphores) on 8 scheduling policies with delays injected at the hooks between unlock, context switch and store_state, and every history must satisfy the abstract rule that a task whose wake-up was issued runs again (a watchdog reads the pool's pending/active/staged/suspended counts)",
         note="sequential consistency; the schedules of the real runtime are sampled (hook-widened), only the model is exhaustive; F is bound to the code through the hooked steps' effects (histories), not yet by step-by-step trace validation",
         design="5/C02"),
+    "C01": dict(
+        technique="TLA+ abstract task-ledger spec LifeAbs + fine-grained state-word spec WakeImpl model-checked by TLC; TLC trace validation of submit/enter/phase/exit records of random task forests on the real runtime; hook monitor for double execution",
+        text="TLC proves on WakeImpl that the pending->active CAS and the tagged store_state keep a task on one worker at a time and enter its body once even with stale queue entries, duplicate wake-ups and helper tasks; on the real runtime every task of random forests (yields, blocking, stealing, recycling of thread objects, 8 policies x 1-4 workers, restarts) must follow the ledger submitted -> entered exactly once -> phases one at a time -> exited before stop()/wait() return, with scheduling-loop and queue hooks perturbed, and a monitor on the scheduling loop's run hooks rejects any thread object executed by two workers simultaneously",
+        note="sequential consistency; real schedules are sampled; shared-priority / thread_queue_mc only black-box",
+        design="5/C01"),
+    "C05": dict(
+        technique="TLA+ abstract life-cycle spec LifeAbs and fine-grained activity-counter spec ActivityImpl model-checked by TLC + TLC trace validation of multi-incarnation life-cycle histories (start/wait/suspend/resume/finalize/stop) from the real runtime",
+        text="TLC checks the wait/stop post-conditions on the counter protocol (increment before the task is visible, decrement after termination; both swapped variants must fail) and on the API-level spec; real histories with 8 restarts per process, work submitted by the entry function, external threads, during suspension and while stop() is already waiting must be behaviours of LifeAbs: wait_ret only after the snapshot and its descendants exited, nothing runs while suspended, stop_ret only after finalize with all work done and with the entry function's result",
+        note="sequential consistency; sampled schedules; life-cycle calls issued by one driver thread as documented",
+        design="5/C05"),
 }
 
 NOT_YET = {}
